@@ -128,6 +128,44 @@ def gen_scaling(repo):
     return m
 
 
+def gen_irregular(repo):
+    m = T.Module(f"{repo}/src/nitypes/waveform/_timing/_sample_interval/_irregular.py", "Gen.Irregular")
+    m.translate_int_enum("_Direction")
+    # _get_direction(left, right): two `if a < b: return Enum.X` and a final return, over integers
+    fn = m.find_func(None, "_get_direction")
+    enum = dict(m.enums["_Direction"])
+    body = [st for st in fn.body if not (isinstance(st, T.ast.Expr) and isinstance(st.value, T.ast.Constant))]
+    args = [a.arg for a in fn.args.args]
+    if len(args) != 2:
+        raise T.Untranslatable("_get_direction: two parameters expected", fn, m.path)
+
+    def val(e):
+        if isinstance(e, T.ast.Attribute) and isinstance(e.value, T.ast.Name) and e.value.id == "_Direction" and e.attr in enum:
+            return T.lit(enum[e.attr])
+        raise T.Untranslatable(f"_get_direction: returns {T.ast.unparse(e)}", e, m.path)
+    CMP = {T.ast.Lt: "<", T.ast.Gt: ">", T.ast.LtE: "≤", T.ast.GtE: "≥", T.ast.Eq: "=", T.ast.NotEq: "≠"}
+    code = ""
+    for st in body:
+        if isinstance(st, T.ast.If) and not st.orelse and len(st.body) == 1 and isinstance(st.body[0], T.ast.Return) \
+                and isinstance(st.test, T.ast.Compare) and len(st.test.ops) == 1 and type(st.test.ops[0]) in CMP \
+                and isinstance(st.test.left, T.ast.Name) and isinstance(st.test.comparators[0], T.ast.Name) \
+                and {st.test.left.id, st.test.comparators[0].id} <= set(args):
+            code += f"if {st.test.left.id} {CMP[type(st.test.ops[0])]} {st.test.comparators[0].id} then {val(st.body[0].value)} else "
+        elif isinstance(st, T.ast.Return):
+            code += val(st.value)
+            break
+        else:
+            raise T.Untranslatable(f"_get_direction: unsupported statement {T.ast.unparse(st)[:60]}", st, m.path)
+    m.out.append("/-- generated from `_get_direction` -/")
+    m.out.append(f"@[pygen] def _get_direction ({' '.join(args)} : Int) : Int := {code}")
+    m.out.append("")
+    m.translate_scan_function("_are_timestamps_monotonic", "_are_timestamps_monotonic", "timestamps", enum_cls="_Direction",
+                              helpers={"_get_direction": "_get_direction"})
+    m.extra_dispatch = ['  | "Irregular._get_direction", [a, b] => some (Py.render (_get_direction a b))',
+                        '  | "Irregular._are_timestamps_monotonic", xs => some (Py.render (_are_timestamps_monotonic xs))']
+    return m
+
+
 def gen_digital_state(repo):
     m = T.Module(f"{repo}/src/nitypes/waveform/_digital/_state.py", "Gen.DigitalState")
     m.translate_table_constants(["_CHAR_TABLE", "_STATE_TEST_TABLE"])
@@ -153,6 +191,7 @@ MODULES = [
     ("BtDtypes", lambda repo, deps: gen_bt_dtypes(repo), []),
     ("ComplexDtypes", lambda repo, deps: gen_complex_dtypes(repo), []),
     ("Scaling", lambda repo, deps: gen_scaling(repo), []),
+    ("Irregular", lambda repo, deps: gen_irregular(repo), []),
     ("DigitalState", lambda repo, deps: gen_digital_state(repo), []),
     ("Port", lambda repo, deps: gen_port(repo), []),
 ]
@@ -178,6 +217,7 @@ def dispatch_fn(m) -> str:
         vs = [f"a{i}" for i in range(len(info.param_types))]
         call = " ".join([info.lean_name] + vs)
         lines.append(f'  | "{entry}", [{", ".join(vs)}] => some (Py.render ({call}))')
+    lines += getattr(m, "extra_dispatch", [])
     lines += ["  | _, _ => none", ""]
     return "\n".join(lines)
 
